@@ -27,7 +27,8 @@ def run(p: Program, rep: Report, tier: str) -> None:
         "R15.2 sync/async agreement. R15.3 the check is in the same iteration as the accumulation. R15.4 bounded hold-back: the "
         "amount the decoder keeps while no delimiter is found must be capped independently of the data (search only a tail / "
         "clamp with max(i, len(buffer) - K)); rindex over the whole buffer with no clamp is unbounded (known finding F23). "
-        "R15.5 file data is written per event. NOT decided: the numeric bound itself for all chunkings; spooled-file roll-over."
+        "R15.5 file data is written per event. R15.6 a part is a file (streamed, not counted) exactly when its Content-Disposition has "
+        "a filename parameter, an empty one included. NOT decided: the numeric bound itself for all chunkings; spooled-file roll-over."
     )
     F = Folder(p)
     hs = helpers(p)
@@ -127,6 +128,18 @@ def run(p: Program, rep: Report, tier: str) -> None:
     else:
         rep.violation("R15.2", construct("baize.multipart_helper:parse_stream|parse_async_stream", text="sibling mismatch"), "baize/multipart_helper.py", "the sync and async helpers enforce the limits differently")
     rep.require_instances("R15.1", 13)
+
+    # ---------------------------------------------------------------- R15.6 what counts as "non-file field data"
+    from .mp_common import file_field_decision
+
+    for kind, fn_, node, cons, msg, facts in file_field_decision(p, rep):
+        if kind == "ok":
+            rep.ok("R15.6", msg)
+        elif kind == "undecided":
+            rep.undecide("R15.6", msg)
+        else:
+            rep.violation("R15.6", construct(fn_, text=cons), where(fn_, node), msg, path_facts=facts)
+    rep.require_instances("R15.6", 2)
 
     # ---------------------------------------------------------------- R15.4 bounded hold-back
     dec = p.cls("baize.multipart:MultipartDecoder")
